@@ -12,7 +12,7 @@ import re
 from typing import Any
 
 from .consteval import TOP, ConstEnv, RegexConst
-from .loader import FuncInfo
+from .loader import FuncInfo, own_nodes
 
 
 def _single_def(f: FuncInfo, name: str) -> ast.expr | None:
@@ -303,8 +303,37 @@ class Oracles:
         self.used[f"phase-selfcheck:{f.qualname}"] = why
         return why
 
+    def _sync_cycle_premise(self) -> bool:
+        """Premise of the is_pending/is_imminent exemptions, re-established on every run: the only packets ever put into
+        _global_sync_cycles are appended by track_system_syncs.wrapper after `... or pkt._len != 3: ...; return`."""
+        if hasattr(self, "_scp"):
+            return self._scp  # type: ignore[has-type]
+        ok = False
+        w = self.ctx.repo.funcs.get("ramses_tx.transport.track_system_syncs.wrapper")
+        if w is not None:
+            guard_seen = False
+            for st in w.node.body:
+                if isinstance(st, ast.If) and st.body and isinstance(st.body[-1], ast.Return):
+                    t = " ".join(ast.unparse(st.test).split())
+                    if "pkt._len != 3" in t and "pkt.code != Code._1F09" in t and " and " not in t:
+                        guard_seen = True
+                if any(isinstance(n, ast.Call) and " ".join(ast.unparse(n.func).split()) == "_global_sync_cycles.append" for n in ast.walk(st)):
+                    ok = guard_seen
+                    break
+            # no other producer of deque members
+            for g in self.ctx.repo.funcs.values():
+                if g is w:
+                    continue
+                for n in own_nodes(g.node):  # own statements only: the wrapper's enclosing decorator is an ancestor of w
+                    if isinstance(n, ast.Call) and isinstance(n.func, ast.Attribute) and n.func.attr in ("append", "appendleft", "extend", "insert") and "_global_sync_cycles" in ast.unparse(n.func.value):
+                        ok = False
+        self._scp = ok
+        return ok
+
     def named(self, f: FuncInfo, node: ast.AST, cls: str, detail: str) -> str | None:
         why = self.NAMED.get((f.qualname, cls.rsplit(".", 1)[-1], detail))
+        if why and ("is_pending" in f.qualname or "is_imminent" in f.qualname) and not self._sync_cycle_premise():
+            return None  # the premise (only 3-byte I|1F09 packets enter the deque) no longer holds
         if why:
             self.used[f"named:{f.qualname}:{cls.rsplit('.', 1)[-1]}"] = why
         return why
